@@ -132,6 +132,11 @@ for feat, nm in (({}, 'plain'), ({'multizone': True}, 'multizone')):
     c.setup(_setup)
     c.raises('LightException')
     c.ensures('one-proxy', 'len(result) == 1')
+    if nm == 'multizone':
+        # round 9: a strip is listed only if it ANSWERED the question for its zones (whatever value the wrapper gives up with);
+        # otherwise the discovery fails and the caller keeps what it knew
+        c.ensures('a-strip-is-listed-only-with-the-zones-it-reported',
+                  "len([d for d in ghost('Dev') if d[1] == 'get_color_zones']) == 1 and result[0].get_num_zones() == 3")
 
 
 # ---- which proxy a discovered device gets: by its product features (a plain bulb must not be addressed as a strip)
